@@ -12,6 +12,7 @@ import re
 from yamlpath.common import Searches
 from yamlpath.enums import PathSearchMethods
 
+from yamlpath.wrappers import NodeCoords
 from vkit import core, corpus, paths, qrun, refmatch, refquery
 
 ID = "C12"
@@ -107,6 +108,20 @@ def check_pair(st, op, method, hi, hay, needle):
         st.fail("raises:%s:%s" % (op, type(ex).__name__), case,
                 "a verdict", "%s@%s" % (type(ex).__name__, qrun.where(ex)))
         return
+    # a value handed over in result wrappers (what collectors and slices
+    # pass on, nested as deep as they are) is compared as the value itself
+    for depth in (1, 2):
+        wrapped = hay
+        for _ in range(depth):
+            wrapped = NodeCoords(wrapped, None, None)
+        try:
+            got_w = Searches.search_matches(method, needle, wrapped)
+        except Exception as ex:            # pylint: disable=broad-except
+            got_w = type(ex).__name__
+        if got_w is not got and got_w != got:
+            st.fail("wrapped:%s:%s~%s" % (op, kind(hay), kind(needle)),
+                    dict(case, wrapped=depth), got, got_w)
+            return
     exp = refmatch.match(op, needle, hay)
     if exp is refmatch.UNSPECIFIED:
         st.extra["grid_undecided_pairs"] += 1
